@@ -297,6 +297,11 @@ Definition builtin (f : string) (args : list value) : option ctl :=
     | [VRec "Response" [m; a; ("events", VArr e); d]; VArr l] => Some (CVal (VRec "Response" [m; a; ("events", VArr (e ++ l)); d]))
     | _ => None
     end
+  else if f =? "set_data" then
+    match args with
+    | [VRec "Response" [m; a; e; ("data", _)]; x] => Some (CVal (VRec "Response" [m; a; e; ("data", VCon "Some" [x])]))
+    | _ => None
+    end
   else if f =? "unwrap" then
     match args with
     | [VCon "Ok" [v]] | [VCon "Some" [v]] => Some (CVal v)
@@ -308,7 +313,7 @@ Definition builtin (f : string) (args : list value) : option ctl :=
 Definition is_builtin (f : string) : bool :=
   existsb (String.eqb f) ["len"; "is_empty"; "konst::cmp_str"; "konst::eq_str"; "into"; "to_string"; "Binary::default";
                           "unwrap_or_default_string"; "anyhow::is"; "anyhow::downcast"; "unwrap"; "into_option"; "is_some"; "is_none"; "min"; "push"; "Response::new";
-                          "add_submessages"; "add_attributes"; "add_events"].
+                          "add_submessages"; "add_attributes"; "add_events"; "set_data"].
 
 Definition binop (op : string) (a b : value) : option ctl :=
   match a, b with
